@@ -91,7 +91,7 @@ def py_inner_text(node):
     return "".join(out)
 
 
-SIMPLE_INLINE = {T + "span", T + "a", T + "s", T + "tab", T + "line-break"}
+SIMPLE_INLINE = {T + "span", T + "s", T + "tab", T + "line-break"}      # (text:a is rendered with its URL by Link.__str__: outside WS.v)
 
 
 def simple_paragraph(node):
